@@ -124,6 +124,29 @@ CHECKS['C14'] = dict(
          "encoding and parse back to the same value consuming all bytes; BlockIdExt helpers on boundary values.",
     note="schema reader and dict<->value conversion in tlkit.py are glue (the reader is checked by TLC through Render and the id); strings ASCII; bytes values that are themselves TL objects are out of scope",
     tech="TLA+ TL encoding spec evaluated by TLC on recorded serialisations (trace validation) + TLC lemma (unique decodability) + TLC-checked schema transcription", ref="8/C14")
+TLBNOTE = "TlbSchema.tla is a hand transcription of block.tlb; attribute-path aliases and representation normalisation live in tlbkit.py (glue); constructor labels are not compared"
+CHECKS['C15'] = dict(
+    text="Messages are specified as logical values with the set of all placements (state-init inline/ref x body inline/ref) that fit a cell "
+         "(TonMsg.Encodings over the TL-B interpreter). For ~1500 header x state-init x body combinations around the joint bit/reference "
+         "boundary TLC checks that the library's cell is one of the valid encodings and that serialisation does not fail when one exists, and "
+         "the parser is run on EVERY fitting encoding produced by the specification; stand-alone wrappers (StateInit, CurrencyCollection, "
+         "wallet v3/v4 data, NFT data, HashUpdate) are compared with the unique spec encoding and parsed back.",
+    note=TLBNOTE + "; serialisation direction restricted to canonical (minimal var-int) values; highload wallet query dictionary not covered",
+    tech="TLA+ TL-B interpreter + message placement spec; TLC encodes driver-composed values (spec -> code) and validates recorded cells/fields (code -> spec)", ref="8/C15")
+CHECKS['C16'] = dict(
+    text="A TL-B interpreter in TLA+ (schemas as data, generic encoder, leaf flattener with the abstract value each leaf must parse to) over a "
+         "transcription of 45+ block.tlb types; TLC checks tag prefix-freeness and generates the base value and every one-factor variation "
+         "(all constructor alternatives, Maybe/Either sides, flags, boundary leaves incl. top-bit-set and non-minimal integers, extra-currency "
+         "and validator dictionaries) with its encoding; the library parses each and TLC compares every leaf and the consumed bits/refs.",
+    note=TLBNOTE + "; types covered are listed in the evidence file (Transaction/InMsg/OutMsg/AccountBlock/McStateExtra not yet transcribed)",
+    tech="TLC-generated TL-B values and encodings replayed into the parsers; recorded field values validated by TLC leaf by leaf", ref="8/C16")
+CHECKS['C17'] = dict(
+    text="TonVm encodes stacks (VmStackList chaining, tinyint/int257 selection, tuples with VmTupleRef nil/single/any, cells, slices, builders, "
+         "ten continuation kinds). For hundreds of random and boundary stacks the library serialises twice with a snapshot of the caller's "
+         "values in between; TLC checks the cell equals the spec encoding, the caller's values are unchanged and the second cell is equal; "
+         "the library parses the specification's encoding and TLC compares the values.",
+    note="TonVm transcription; control data of vmc_std/vmc_envelope only in its empty form; slices in their canonical VmCellSlice form",
+    tech="TLA+ VmStack encoder: TLC-encoded stacks replayed into the parser and recorded serialisations validated by TLC (incl. caller-state frame)", ref="8/C17")
 NOT_APPLICABLE = []
 def main():
     checks = []
